@@ -500,6 +500,8 @@ pub fn run_c09(ctx: &mut Ctx) {
         let expc = exp.clone();
         let bits_pp = samples(a.color) * a.depth as usize;
         let (want_actl, first_in_animation) = ((a.frames.len() as u32, a.plays), a.default_image.is_none());
+        let use_nfi = i % 3 == 1;
+        ctx.rep.count("frames entered with", if use_nfi { "next_frame_info, then next_frame" } else { "next_frame" });
         let res = guarded(move || -> Vec<(String, String)> {
             let mut problems = vec![];
             let dec = png::Decoder::new(std::io::Cursor::new(filec));
@@ -519,9 +521,31 @@ pub fn run_c09(ctx: &mut Ctx) {
             let size = rd.output_buffer_size();
             for (k, e) in expc.iter().enumerate() {
                 let mut buf = vec![prefill; size];
+                if use_nfi && k >= 1 {
+                    // the frame is entered with next_frame_info first (it reports this frame's control chunk); behind the last
+                    // frame a second next_frame_info is REFUSED and must leave the frame it did not replace deliverable
+                    match rd.next_frame_info() {
+                        Ok(fc) => {
+                            if (fc.width, fc.height) != (e.w, e.h) {
+                                problems.push(("frame-control".into(), format!("next_frame_info before frame {}: {}x{}, the file says {}x{}", k, fc.width, fc.height, e.w, e.h)));
+                            }
+                        }
+                        Err(err) => {
+                            problems.push(("rejected".into(), format!("next_frame_info in front of frame {} of a valid APNG failed: {}", k, err)));
+                            return problems;
+                        }
+                    }
+                    if k + 1 == expc.len() {
+                        match rd.next_frame_info() {
+                            Err(png::DecodingError::Parameter(_)) => {}
+                            Ok(_) => problems.push(("extra-frame".into(), "next_frame_info reported a frame behind the last one".into())),
+                            Err(err) => problems.push(("end-of-image".into(), format!("next_frame_info behind the last frame: {}", err))),
+                        }
+                    }
+                }
                 match rd.next_frame(&mut buf) {
                     Err(err) => {
-                        problems.push(("rejected".into(), format!("frame {} of a valid APNG failed: {}", k, err)));
+                        problems.push(("rejected".into(), format!("frame {} of a valid APNG failed{}: {}", k, if use_nfi && k >= 1 { " (entered with next_frame_info)" } else { "" }, err)));
                         return problems;
                     }
                     Ok(oi) => {
@@ -1313,6 +1337,7 @@ pub fn run_c02(ctx: &mut Ctx) {
     let mut files = corpus::mixed_files(&mut rng, ctx.n(80, 200), ctx.n(160, 500), ctx.n(600, 1416));
     files.extend(chunk_soups(&mut rng, ctx.n(600, 1500)));
     files.extend(failing_files(&mut rng, ctx.n(14, 70)));
+    files.extend(corpus::truncated_body_files(&mut rng));
     let alphabet = [Op::NextFrame(0xFF), Op::NextRow, Op::ReadRow, Op::NextFrameInfo, Op::Finish];
     let mut runs = vec![];
     let mut traces = vec![];
